@@ -285,6 +285,47 @@ pub fn operand(env: &BDDEnv<usize>, m: &Ref, id: Id) -> Rc<BDD<usize>> {
     }
 }
 
+thread_local! {
+    static PREFILL: std::cell::Cell<usize> = const { std::cell::Cell::new(0) };
+}
+
+/// The environment of a wide check. With a prefill of n it already holds n unrelated nodes
+/// (single-variable diagrams on ids from 2^40 on): a node table that has grown, rehashed or -
+/// in a broken variant - "filled up" must behave like a new one.
+pub fn new_env() -> BDDEnv<usize> {
+    let env: BDDEnv<usize> = BDDEnv::new();
+    let n = PREFILL.with(|p| p.get());
+    for i in 0..n {
+        let _ = env.var((1usize << 40) + i);
+    }
+    env
+}
+
+pub fn with_prefill<F: FnOnce() -> Check>(n: usize, f: F) -> Check {
+    let old = PREFILL.with(|p| p.replace(n));
+    let r = f();
+    PREFILL.with(|p| p.set(old));
+    r.map_err(|mut v| {
+        if n > 0 && !v.message.starts_with("SKIP:") {
+            v.case["prefill"] = json!(n);
+            v.message = format!("(environment already holding {} other nodes) {}", n, v.message);
+        }
+        v
+    })
+}
+
+pub fn gen_prefill(t: &mut Tape, st: &mut Stats) -> usize {
+    if t.chance(8) {
+        st.class("environment pre-filled with 2^17+ nodes");
+        (1usize << 17) + 9000 + t.choose(5000)
+    } else if t.chance(16) {
+        st.class("environment pre-filled with ~2^16 nodes");
+        65530 + t.choose(12)
+    } else {
+        0
+    }
+}
+
 fn std_hash<T: Hash>(x: &T) -> u64 {
     let mut h = std::collections::hash_map::DefaultHasher::new();
     x.hash(&mut h);
@@ -352,7 +393,7 @@ pub fn check_conn(a: &W, b: &W, c: &W, canon: bool) -> Check {
     guarded(&cj.clone(), || {
         let mut m = Ref::new();
         let (ia, ib, ic) = (a.to_ref(&mut m), b.to_ref(&mut m), c.to_ref(&mut m));
-        let env: BDDEnv<usize> = BDDEnv::new();
+        let env = new_env();
         let (ha, hb, hc) = (operand(&env, &m, ia), operand(&env, &m, ib), operand(&env, &m, ic));
         let snap = (plain::deep_clone(&ha), plain::deep_clone(&hb));
         let x = |h: &Rc<BDD<usize>>| Rc::clone(h);
@@ -472,7 +513,10 @@ pub fn stage_conn(ctx: &mut Ctx, name: &str, canon: bool, cases: u64) -> Result<
         let cj = json!({"kind": "wide-conn", "a": a.to_json(), "b": b.to_json(), "c": c.to_json(), "canon": canon});
         let mut m = Ref::new();
         nontrivial(st, &mut m, &[&a, &b], &cj);
-        fun::with_operands(mode, || check_conn(&a, &b, &c, canon))
+        {
+            let pf = gen_prefill(&mut t, st);
+            with_prefill(pf, || fun::with_operands(mode, || check_conn(&a, &b, &c, canon)))
+        }
     });
     ctx.stage(name, false, r)
 }
@@ -485,7 +529,7 @@ pub fn check_quant(f: &W, vars: &[usize]) -> Check {
     guarded(&cj.clone(), || {
         let mut m = Ref::new();
         let fi = f.to_ref(&mut m);
-        let env: BDDEnv<usize> = BDDEnv::new();
+        let env = new_env();
         let hf = operand(&env, &m, fi);
         let vs: BTreeSet<usize> = vars.iter().copied().collect();
         let want_ex = m.quant(true, &vs, fi);
@@ -567,7 +611,10 @@ pub fn stage_quant(ctx: &mut Ctx, name: &str, cases: u64) -> Result<(), Violatio
         });
         let cj = json!({"kind": "wide-quant", "f": f.to_json(), "vars": ids_json(&vars)});
         nontrivial(st, &mut m, &[&f], &cj);
-        fun::with_operands(mode, || check_quant(&f, &vars))
+        {
+            let pf = gen_prefill(&mut t, st);
+            with_prefill(pf, || fun::with_operands(mode, || check_quant(&f, &vars)))
+        }
     });
     ctx.stage(name, false, r)
 }
@@ -581,7 +628,7 @@ pub fn check_count(a: &[W], b: &[W], n: i64) -> Check {
         let mut m = Ref::new();
         let ia: Vec<Id> = a.iter().map(|w| w.to_ref(&mut m)).collect();
         let ib: Vec<Id> = b.iter().map(|w| w.to_ref(&mut m)).collect();
-        let env: BDDEnv<usize> = BDDEnv::new();
+        let env = new_env();
         let ha: Vec<Rc<BDD<usize>>> = ia.iter().map(|i| operand(&env, &m, *i)).collect();
         let hb: Vec<Rc<BDD<usize>>> = ib.iter().map(|i| operand(&env, &m, *i)).collect();
         let nn = n as i128;
@@ -684,7 +731,10 @@ pub fn stage_count(ctx: &mut Ctx, name: &str, cases: u64) -> Result<(), Violatio
             st.sample(cj.clone());
         }
         let mode = fun::gen_operands(&mut t);
-        fun::with_operands(mode, || check_count(&a, &b, n))
+        {
+            let pf = gen_prefill(&mut t, st);
+            with_prefill(pf, || fun::with_operands(mode, || check_count(&a, &b, n)))
+        }
     });
     ctx.stage(name, false, r)
 }
@@ -721,7 +771,7 @@ pub fn check_model(f: &W, probes: &[usize]) -> Check {
     guarded(&cj.clone(), || {
         let mut m = Ref::new();
         let fi = f.to_ref(&mut m);
-        let env: BDDEnv<usize> = BDDEnv::new();
+        let env = new_env();
         let hf = operand(&env, &m, fi);
         let r = env.model(Rc::clone(&hf));
         if fi == refbdd::F {
@@ -789,7 +839,10 @@ pub fn stage_model(ctx: &mut Ctx, name: &str, cases: u64) -> Result<(), Violatio
         let cj = json!({"kind": "wide-model", "f": f.to_json(), "probes": ids_json(&probes)});
         nontrivial(st, &mut m, &[&f], &cj);
         let mode = fun::gen_operands(&mut t);
-        fun::with_operands(mode, || check_model(&f, &probes))
+        {
+            let pf = gen_prefill(&mut t, st);
+            with_prefill(pf, || fun::with_operands(mode, || check_model(&f, &probes)))
+        }
     });
     ctx.stage(name, false, r)
 }
@@ -802,7 +855,7 @@ pub fn check_retain(f: &W) -> Check {
     guarded(&cj.clone(), || {
         let mut m = Ref::new();
         let fi = f.to_ref(&mut m);
-        let env: BDDEnv<usize> = BDDEnv::new();
+        let env = new_env();
         let hf = operand(&env, &m, fi);
         let sup = m.support(fi);
         for (name, filt) in [("True", TruthTableEntry::True), ("False", TruthTableEntry::False), ("Any", TruthTableEntry::Any)] {
@@ -856,7 +909,10 @@ pub fn stage_retain(ctx: &mut Ctx, name: &str, cases: u64) -> Result<(), Violati
         let cj = json!({"kind": "wide-retain", "f": f.to_json()});
         nontrivial(st, &mut m, &[&f], &cj);
         let mode = fun::gen_operands(&mut t);
-        fun::with_operands(mode, || check_retain(&f))
+        {
+            let pf = gen_prefill(&mut t, st);
+            with_prefill(pf, || fun::with_operands(mode, || check_retain(&f)))
+        }
     });
     ctx.stage(name, false, r)
 }
@@ -869,9 +925,14 @@ pub fn replay(case: &Value) -> Option<Check> {
     if !kind.starts_with("wide-") {
         return None;
     }
-    let bad = || Err(Violation::new("unreadable wide replay case", case.clone()));
     let mode = fun::case_operands(case);
-    Some(match kind {
+    let pf = case["prefill"].as_u64().unwrap_or(0) as usize;
+    Some(with_prefill(pf, || replay_kind(kind, mode, case)))
+}
+
+fn replay_kind(kind: &str, mode: Operands, case: &Value) -> Check {
+    let bad = || Err(Violation::new("unreadable wide replay case", case.clone()));
+    (match kind {
         "wide-conn" => match (W::from_json(&case["a"]), W::from_json(&case["b"]), W::from_json(&case["c"])) {
             (Some(a), Some(b), Some(c)) => fun::with_operands(mode, || check_conn(&a, &b, &c, case["canon"].as_bool().unwrap_or(false))),
             _ => bad(),
@@ -893,10 +954,274 @@ pub fn replay(case: &Value) -> Option<Check> {
             (Some(f), Some(p)) => fun::with_operands(mode, || check_model(&f, &p)),
             _ => bad(),
         },
+        "wide-history" => {
+            let ws: Option<Vec<W>> = case["steps"].as_array().and_then(|l| l.iter().map(W::from_json).collect());
+            match ws {
+                Some(ws) => check_history(&ws),
+                None => bad(),
+            }
+        }
+        "wide-collision" => match (case["bits"].as_u64().and_then(collision_operands), case["which"].as_str()) {
+            (Some(ops), Some(w)) => check_collision_case(&ops, w),
+            _ => bad(),
+        },
         "wide-retain" => match W::from_json(&case["f"]) {
             Some(f) => fun::with_operands(mode, || check_retain(&f)),
             None => bad(),
         },
         _ => bad(),
     })
+}
+
+// ------------------------------------------------------------------------------------------------
+// Two different sub-diagrams with one and the same 64-bit hash inside ONE operand: an operation
+// that remembers finished sub-results under (a truncation of) the hash would hand the first one's
+// result to the second. The pair is constructed, not searched for: for a function g of three
+// variables the variable id x with hash(var(x)) == hash(g) is solved for (see C02) and verified;
+// the operands are  s ? g : var(x)  and  s ? var(x) : g  with s on top.
+
+pub fn collision_operands(bits: u64) -> Option<Vec<W>> {
+    let g = Fun::new(TT::from_bits(3, bits), vec![1001, 1002, 1005]);
+    if g.tt.is_const() {
+        return None;
+    }
+    let x = crate::props::c02::colliding_var(g.plain().get_hash())?;
+    if g.ids.contains(&x) || x < 8 {
+        return None;
+    }
+    let s = 3usize;
+    let wg = W::Small(g);
+    let wx = W::Cube(vec![(x, true)]);
+    let pick = |hi: &W, lo: &W| {
+        W::Bin(
+            refbdd::OP_OR,
+            Box::new(W::Bin(refbdd::OP_AND, Box::new(W::Cube(vec![(s, true)])), Box::new(hi.clone()))),
+            Box::new(W::Bin(refbdd::OP_AND, Box::new(W::Cube(vec![(s, false)])), Box::new(lo.clone()))),
+        )
+    };
+    Some(vec![pick(&wg, &wx), pick(&wx, &wg), wg, wx])
+}
+
+/// `which`: "conn" | "quant" | "model" | "retain"
+pub fn stage_collisions(ctx: &mut Ctx, name: &str, which: &'static str) -> Result<(), Violation> {
+    let r = par_exhaustive(ctx, 256, |i, st| {
+        let ops = match collision_operands(i) {
+            Some(o) => o,
+            None => {
+                if i != 0 && i != 255 {
+                    st.class("hash-collision-not-constructible(hash function of another shape)");
+                }
+                return Ok(());
+            }
+        };
+        st.eval();
+        st.class("equal-hash sub-diagrams under one root");
+        let cj = json!({"kind": "wide-collision", "bits": i, "which": which});
+        if st.nontrivial(fnv_str(&cj.to_string())) {
+            st.nt_sample(|| cj.clone());
+        }
+        check_collision_case(&ops, which)
+    });
+    ctx.stage(name, true, r)
+}
+
+fn check_collision_case(ops: &[W], which: &str) -> Check {
+    let mut m = Ref::new();
+    let xs: Vec<usize> = ops.iter().flat_map(|w| { let id = w.to_ref(&mut m); m.support(id).into_iter().collect::<Vec<_>>() }).collect();
+    for f in &ops[..2] {
+        match which {
+            "conn" => {
+                check_conn(f, &ops[2], &ops[3], false)?;
+                check_conn(&ops[3], f, &ops[2], false)?;
+            }
+            "canon" => {
+                check_conn(f, &ops[2], &ops[3], true)?;
+            }
+            "quant" => {
+                for v in [3usize, 1001, 1005] {
+                    check_quant(f, &[v])?;
+                }
+                let x = *xs.iter().max().unwrap_or(&0);
+                check_quant(f, &[x])?;
+                check_quant(f, &[1002, x, 1001])?;
+            }
+            "model" => check_model(f, &xs)?,
+            "retain" => check_retain(f)?,
+            _ => {}
+        }
+    }
+    Ok(())
+}
+
+// ------------------------------------------------------------------------------------------------
+// histories of wide computations in ONE environment (C13)
+
+/// Evaluate `w` through the operations under test (var / not / and / or / xor / eq / implies).
+pub fn eval_api(env: &BDDEnv<usize>, w: &W) -> Rc<BDD<usize>> {
+    let lit = |v: usize, p: bool| if p { env.var(v) } else { env.not(env.var(v)) };
+    match w {
+        W::Const(b) => env.mk_const(*b),
+        W::Cube(l) => {
+            let mut s = l.clone();
+            s.sort();
+            s.iter().rev().fold(env.mk_const(true), |acc, (v, p)| env.and(lit(*v, *p), acc))
+        }
+        W::Clause(l) => {
+            let mut s = l.clone();
+            s.sort();
+            s.iter().rev().fold(env.mk_const(false), |acc, (v, p)| env.or(lit(*v, *p), acc))
+        }
+        W::Small(f) => {
+            // Shannon expansion through ite, bottom-up
+            let mut ids = f.ids.clone();
+            ids.sort();
+            shannon(env, f, &ids, 0, &mut Vec::new())
+        }
+        W::Not(a) => env.not(eval_api(env, a)),
+        W::Bin(op, a, b) => {
+            let x = eval_api(env, a);
+            let y = eval_api(env, b);
+            match *op {
+                refbdd::OP_OR => env.or(x, y),
+                refbdd::OP_XOR => env.xor(x, y),
+                refbdd::OP_IFF => env.eq(x, y),
+                refbdd::OP_IMP => env.implies(x, y),
+                _ => env.and(x, y),
+            }
+        }
+    }
+}
+
+fn shannon(env: &BDDEnv<usize>, f: &Fun, ids: &[usize], level: usize, asg: &mut Vec<(usize, bool)>) -> Rc<BDD<usize>> {
+    if level == ids.len() {
+        let mut idx = 0usize;
+        for (p, id) in f.ids.iter().enumerate() {
+            if asg.iter().any(|(v, b)| v == id && *b) {
+                idx |= 1 << p;
+            }
+        }
+        return env.mk_const(f.tt.get(idx));
+    }
+    asg.push((ids[level], true));
+    let hi = shannon(env, f, ids, level + 1, asg);
+    asg.pop();
+    asg.push((ids[level], false));
+    let lo = shannon(env, f, ids, level + 1, asg);
+    asg.pop();
+    env.ite(env.var(ids[level]), hi, lo)
+}
+
+/// a near copy: the same expression with one literal changed deep down (or one literal fewer / more)
+fn mutate(t: &mut Tape, w: &W, ids: &[usize]) -> W {
+    match w {
+        W::Cube(l) | W::Clause(l) if !l.is_empty() => {
+            let mut s = l.clone();
+            s.sort();
+            let n = s.len();
+            // mostly near the bottom of the diagram
+            let k = if t.chance(180) { n - 1 - t.choose(3.min(n)) } else { t.choose(n) };
+            match t.choose(4) {
+                0 => {
+                    s.truncate(k.max(1));
+                }
+                1 => {
+                    if let Some(extra) = ids.iter().find(|i| **i > s[n - 1].0) {
+                        s.push((*extra, t.flag()));
+                    } else {
+                        s[k].1 = !s[k].1;
+                    }
+                }
+                _ => s[k].1 = !s[k].1,
+            }
+            if matches!(w, W::Cube(_)) {
+                W::Cube(s)
+            } else {
+                W::Clause(s)
+            }
+        }
+        W::Not(a) => W::Not(Box::new(mutate(t, a, ids))),
+        W::Bin(op, a, b) => {
+            if t.flag() {
+                W::Bin(*op, Box::new(mutate(t, a, ids)), b.clone())
+            } else {
+                W::Bin(*op, a.clone(), Box::new(mutate(t, b, ids)))
+            }
+        }
+        other => other.clone(),
+    }
+}
+
+pub fn check_history(ws: &[W]) -> Check {
+    let cj = json!({"kind": "wide-history", "steps": ws.iter().map(|w| w.to_json()).collect::<Vec<_>>()});
+    guarded(&cj.clone(), || {
+        let mut m = Ref::new();
+        let env = new_env();
+        let mut held: Vec<(Rc<BDD<usize>>, Id)> = Vec::new();
+        for (i, w) in ws.iter().enumerate() {
+            let want = w.to_ref(&mut m);
+            let r = eval_api(&env, w);
+            expect(&mut m, &format!("step {} (in the shared environment)", i), &r, want, true, &cj)?;
+            let fresh: BDDEnv<usize> = BDDEnv::new();
+            let rf = eval_api(&fresh, w);
+            if rf.as_ref() != r.as_ref() {
+                return Err(Violation::new(format!("step {}: the result in the shared environment differs structurally from the result in a fresh environment", i), cj.clone()));
+            }
+            let sh = plain::invariants(&r);
+            if sh.distinct_tests != sh.distinct_allocs {
+                return Err(Violation::new(
+                    format!("step {}: {} structurally distinct sub-diagrams are spread over {} nodes (not shared)", i, sh.distinct_tests, sh.distinct_allocs),
+                    cj.clone(),
+                ));
+            }
+            held.push((r, want));
+            // everything handed out earlier still denotes what it denoted
+            for (j, (h, wj)) in held.iter().enumerate() {
+                let got = m.read_usize(h);
+                if got != *wj {
+                    return Err(Violation::new(format!("after step {} the diagram returned by step {} denotes another function: {}", i, j, witness(&mut m, got, *wj)), cj.clone()));
+                }
+            }
+        }
+        // equal functions among the steps are one node
+        for a in 0..held.len() {
+            for b in 0..a {
+                if held[a].1 == held[b].1 && !Rc::ptr_eq(&held[a].0, &held[b].0) && held[a].1 > 1 {
+                    return Err(Violation::new(format!("steps {} and {} denote the same function but are two nodes of the environment", b, a), cj.clone()));
+                }
+                if held[a].1 != held[b].1 && held[a].0 == held[b].0 {
+                    return Err(Violation::new(format!("steps {} and {} denote different functions but compare equal", b, a), cj.clone()));
+                }
+            }
+        }
+        Ok(())
+    })
+}
+
+pub fn stage_history(ctx: &mut Ctx, name: &str, cases: u64) -> Result<(), Violation> {
+    let thorough = ctx.tier == Tier::Thorough;
+    let r = par_random(ctx, name, cases, 900, |tape, st| {
+        let mut t = Tape::new(tape);
+        let ids = gen_layout(&mut t, thorough);
+        let mut m = Ref::new();
+        let steps = 2 + t.choose(5);
+        let mut ws: Vec<W> = Vec::new();
+        for i in 0..steps {
+            let w = if i > 0 && t.chance(170) {
+                let k = t.choose(ws.len());
+                let base = ws[k].clone();
+                mutate(&mut t, &base, &ids)
+            } else {
+                gen_w(&mut t, &ids, 1)
+            };
+            ws.push(w.fit(&mut m, 300));
+        }
+        st.eval();
+        let refs: Vec<&W> = ws.iter().collect();
+        classify(st, &mut m, &refs, &ids);
+        let cj = json!({"kind": "wide-history", "steps": ws.iter().map(|w| w.to_json()).collect::<Vec<_>>()});
+        nontrivial(st, &mut m, &refs, &cj);
+        let pf = gen_prefill(&mut t, st);
+        with_prefill(pf, || check_history(&ws))
+    });
+    ctx.stage(name, false, r)
 }
